@@ -278,6 +278,28 @@ def equal(a, b):
     return type(a) is type(b) and a == b
 
 
+def loosely_equal(stored, given, t):
+    """stored == given up to the documented coercions (bool parameters accept anything)"""
+    if isinstance(t, (tuple, list)):
+        if t[0] == "opt":
+            return stored is None and given is None or (given is not None and loosely_equal(stored, given, t[1]))
+        if t[0] == "list":
+            return isinstance(given, list) and len(stored) == len(given) and all(loosely_equal(a, b, t[1]) for a, b in zip(stored, given))
+        return isinstance(given, dict) and set(stored) == set(given) and all(loosely_equal(stored[k], given[k], t[1]) for k in stored)
+    if t == "bool":
+        return True
+    if t == "path":
+        return str(stored) == str(given)
+    if t == "cfg":
+        return stored is given
+    if isinstance(stored, float) and isinstance(given, float) and math.isnan(stored) and math.isnan(given):
+        return True
+    try:
+        return stored == given
+    except Exception:
+        return False
+
+
 def depth_of(t):
     return 1 + depth_of(t[1]) if isinstance(t, (tuple, list)) else 1
 
@@ -307,6 +329,11 @@ def prop_types(ctx, case):
     if raised is None:
         if stored == "<unset>" and value is None:
             stored = None
+        if conforms_stored(stored, t) and not loosely_equal(stored, value, t):
+            ctx.violation(
+                f"undocumented-coercion:{_base(t, defect)}",
+                f"a parameter of type {tname} given {value!r} stores {stored!r}: neither the value itself nor one of the documented coercions (integral float -> int, int -> float, str -> Path)",
+            )
         if not conforms_stored(stored, t):
             where = "top" if not (defect and defect["path"]) else "nested"
             kind = type(stored).__name__
@@ -349,7 +376,7 @@ def _base(t, defect):
 # ----------------------------------------------------------------------------------
 # (ii) required value missing somewhere in a task graph
 
-POSITIONS = ["cfg", "ins", "dct", "node.nxt", "node.others", "node.named", "node.leaf", "node.metasub", "node.metalist", "pre-task", "init-task", "wrap.inner", "node.nl", "node.dlc", "node.ldc", "node.metanl"]
+POSITIONS = ["cfg", "ins", "dct", "node.nxt", "node.others", "node.named", "node.leaf", "node.metasub", "node.metalist", "pre-task", "init-task", "wrap.inner", "node.nl", "node.dlc", "node.ldc", "node.metanl", "datacfg.data"]
 
 
 @st.composite
@@ -439,6 +466,12 @@ def prop_missing(ctx, case):
         kw["dct"] = in_dict(bad)
     elif pos == "wrap.inner":
         holder = Wrap() if not case["valid"] else Wrap(inner=Leaf(i=1))
+    elif pos == "datacfg.data":
+        from vx.universe import DataCfg
+
+        f = ctx.scratch / "c15-data.txt"
+        f.write_text("x")
+        holder = DataCfg(data=f) if case["valid"] else DataCfg()  # required ignored (DataPath) parameter missing
     elif pos.startswith("node."):
         p = pos[5:]
         if p == "nxt":
@@ -485,7 +518,7 @@ def prop_missing(ctx, case):
         labels.append("missing:in-dict")
     if container:
         labels.append("missing:in-list")
-    if pos in ("node.metasub", "node.metalist", "node.metanl"):
+    if pos in ("node.metasub", "node.metalist", "node.metanl", "datacfg.data"):
         labels.append("missing:under-meta")
     if pos in ("node.nl", "node.dlc", "node.ldc", "node.metanl"):
         labels.append("missing:nested-container")
